@@ -8,5 +8,6 @@ Cd "ocaml".
 Extraction "model.ml" init step run abs counter geth getb apply_events cinit ainit fl_allocate fl_desallocate
   fl_resize _allocate search_binary tabfree cls as_is all_fixed
   rinit rstep rrun rcnt getq rc_getrc
-  pinit pstep prun pslot cstep crun outstanding.
+  pinit pstep prun pslot cstep crun outstanding
+  get_counter op_pre rstep_df.
 Cd "..".
